@@ -14,6 +14,7 @@ import (
 	"math/big"
 	"math/rand"
 	"os"
+	"time"
 
 	"github.com/dominant-strategies/go-quai/common"
 	"github.com/dominant-strategies/go-quai/params"
@@ -30,6 +31,7 @@ type Item struct {
 	Amt  string `json:"amt"`  // min | dust | typical | big | huge
 	Slip int    `json:"slip"` // basis points, -1 unspecified
 	Gas  string `json:"gas"`  // ample | tight
+	Units int   `json:"units,omitempty"` // replay: amount in percent of the flow average (overrides the class)
 	Want string `json:"want,omitempty"` // replay: outcome kind the specification predicts ("" = not compared)
 }
 
@@ -57,6 +59,8 @@ func (g *Engine) quaiAmount(cls string, flow *big.Int) *big.Int {
 	pct := func(p int64) *big.Int { x := new(big.Int).Mul(flow, big.NewInt(p)); return x.Div(x, big.NewInt(100)) }
 	var a *big.Int
 	switch cls {
+	case "belowmin":
+		return new(big.Int).Sub(params.MinQuaiConversionAmount, big.NewInt(1+g.R.Int63n(1000)))
 	case "min":
 		a = new(big.Int).Set(params.MinQuaiConversionAmount)
 	case "dust":
@@ -102,6 +106,12 @@ func (g *Engine) runBatch(items []Item) {
 			from := g.senders[si]
 			to := g.qiKeys[g.R.Intn(len(g.qiKeys))].Addr
 			amt := g.quaiAmount(it.Amt, flow)
+			if it.Units > 0 {
+				amt = new(big.Int).Div(new(big.Int).Mul(flow, big.NewInt(int64(it.Units))), big.NewInt(100))
+				if amt.Cmp(params.MinQuaiConversionAmount) < 0 {
+					amt = new(big.Int).Set(params.MinQuaiConversionAmount)
+				}
+			}
 			if it.Via == "opcode" {
 				etxGas := uint64(300000)
 				if it.Gas == "tight" {
@@ -209,24 +219,57 @@ func (g *Engine) runBatch(items []Item) {
 			refund := g.qiKeys[(oi+1)%len(g.qiKeys)].Addr
 			change := g.qiKeys[(oi+2)%len(g.qiKeys)]
 			fees := []int64{4000, 1500}
-			if it.Gas == "tight" {
-				fees = nil
-				for f := int64(1); f <= 400; f++ {
-					fees = append(fees, f)
-				}
-			}
 			var c *Conv
 			var err error
-			for _, f := range fees {
-				c, err = g.submitQi(owner, ins, denoms, to, it.Slip, refund, change, f, it.Amt, it.Gas)
-				if err == nil {
-					break
+			if it.Gas == "tight" {
+				// exact-fee mode: one input, every output goes to the conversion, the fee is raised qit by qit
+				// until the pool accepts: the ETX then carries (almost) no gas
+				in1 := ins[:1]
+				for _, u := range sp { // sorted ascending: the smallest output that can carry the fee
+					if u.Denom >= 7 {
+						in1 = []chain.Utxo{u}
+						break
+					}
+				}
+				v := conv.Denoms[in1[0].Denom]
+				err = fmt.Errorf("no fee accepted")
+				before := g.pendingTxRoot()
+				for f := int64(1); f <= 900 && f < v && err != nil; f++ {
+					gd := conv.GreedyDenoms(big.NewInt(v - f))
+					var dn []uint8
+					for d := len(gd) - 1; d >= 0; d-- {
+						for j := uint64(0); j < gd[d]; j++ {
+							dn = append(dn, uint8(d))
+						}
+					}
+					if len(dn) == 0 || len(dn) > 60 {
+						continue
+					}
+					c, err = g.submitQi(owner, in1, dn, to, it.Slip, refund, change, f, it.Amt, it.Gas)
+					if err == nil && g.pendingTxRoot() == before {
+						// accepted by the pool but not by the block builder: fee still too small
+						g.forget(c)
+						c, err = nil, fmt.Errorf("not included (fee %d of input %d, %d outputs)", f, v, len(dn))
+					}
+				}
+			} else {
+				b4 := g.pendingTxRoot()
+				for _, f := range fees {
+					c, err = g.submitQi(owner, ins, denoms, to, it.Slip, refund, change, f, it.Amt, it.Gas)
+					if err == nil {
+						break
+					}
+				}
+				if err == nil && g.pendingTxRoot() == b4 {
+					// accepted by the pool, refused by the block builder (e.g. fee below the base fee)
+					g.forget(c)
+					c, err = nil, fmt.Errorf("not included by the block builder")
 				}
 			}
 			if err != nil {
 				g.Stats["i2q_rejected_by_pool"]++
-				if g.Verbose {
-					fmt.Fprintln(os.Stderr, "i2q rejected:", err)
+				if g.Verbose || os.Getenv("CONVDRV_DEBUG") != "" {
+					fmt.Fprintln(os.Stderr, "i2q rejected:", err, it, len(ins), len(denoms))
 				}
 				usedOwner[oi] = false
 				continue
@@ -238,8 +281,8 @@ func (g *Engine) runBatch(items []Item) {
 	g.mine(mininet.Zone)
 	for _, c := range batch {
 		if c.State == "submitted" {
-			// not included in the block that followed the submission: the scenario lost determinism
-			fatalf("conversion %d (%s/%s) was not included in the next block", c.ID, c.Dir, c.Via)
+			// left in the pool by the block builder (block full, fee order): it may still be included later
+			g.Stats["not_in_next_block"]++
 		}
 	}
 	g.mine(mininet.Region)
@@ -302,6 +345,9 @@ func (g *Engine) randomBatch(round int) []Item {
 		}
 		if g.R.Intn(5) == 0 {
 			it.Gas = "tight"
+			if it.Dir == "i2q" && g.R.Intn(2) == 0 {
+				it.Slip = 30
+			}
 		}
 		items = append(items, it)
 	}
@@ -417,7 +463,7 @@ func runScenario(seed int64, prefork bool, rounds int, batches [][]Item, verbose
 	defer e.Net.Close()
 	g = &Engine{S: conv.NewSim(e), E: e, R: rand.New(rand.NewSource(seed)), byTx: map[common.Hash]*Conv{}, trackedQuai: map[common.Address]string{},
 		balances: map[common.Address]*big.Int{}, trackedQi: map[string]string{}, utxos: map[string]chain.Utxo{}, sched: map[uint64][]*Conv{},
-		nonces: map[common.Address]uint64{}, Stats: map[string]int{}, exists: map[common.Address]bool{}, SwapArgs: prefork, Verbose: verbose}
+		nonces: map[common.Address]uint64{}, Stats: map[string]int{}, exists: map[common.Address]bool{}, creditWrong: map[int]bool{}, SwapArgs: prefork, Verbose: verbose}
 	defer func() {
 		if r := recover(); r != nil {
 			if de, ok := r.(driverError); ok {
@@ -428,24 +474,41 @@ func runScenario(seed int64, prefork bool, rounds int, batches [][]Item, verbose
 		}
 	}()
 	// Quai[0] / Qi[0] are the miner's coinbases and never take part in a conversion
+	for dl := time.Now().Add(5 * time.Second); time.Now().Before(dl); time.Sleep(2 * time.Millisecond) {
+		if e.Net.PrimeCore().Slice().ReadBestPh() != nil && e.Net.RegionCore().Slice().ReadBestPh() != nil && e.Net.ZoneCore().Slice().ReadBestPh() != nil {
+			break
+		}
+	}
 	g.senders = e.Quai[1:9]
 	g.recipients = e.Quai[9:]
 	g.qiKeys = e.Qi[1:]
 	g.mine(mininet.Zone)
 	g.mine(mininet.Prime) // prime block 1: the controller kicks in
 	g.deployConverter(e.Quai[1])
-	g.mine(mininet.Zone)
-	st, _ := e.Net.ZoneCore().Processor().State()
-	ia, _ := g.Converter.InternalAddress()
-	if len(st.GetCode(ia)) == 0 {
+	deployed := false
+	for i := 0; i < 4 && !deployed; i++ {
+		g.mine(mininet.Zone)
+		st, _ := e.Net.ZoneCore().Processor().State()
+		ia, _ := g.Converter.InternalAddress()
+		deployed = len(st.GetCode(ia)) != 0
+	}
+	if !deployed {
 		hb := g.S.Blocks[g.Head]
 		for i, rc := range e.Net.ZoneCore().GetReceiptsByHash(hb.Hash) {
-			fmt.Fprintf(os.Stderr, "receipt %d status=%d gasUsed=%d contract=%x txs=%d\n", i, rc.Status, rc.GasUsed, rc.ContractAddress.Bytes(), len(g.S.ZoneBlock(g.Head).Transactions()))
+			fmt.Fprintf(os.Stderr, "receipt %d status=%d gasUsed=%d contract=%x\n", i, rc.Status, rc.GasUsed, rc.ContractAddress.Bytes())
 		}
-		fatalf("converter contract was not deployed at %x", g.Converter.Bytes())
+		pend, _ := e.Net.ZoneCore().TxPoolPending()
+		fatalf("converter contract was not deployed at %x (pool pending accounts: %d)", g.Converter.Bytes(), len(pend))
 	}
 	if batches == nil {
 		for r := 0; r < rounds; r++ {
+			if r == 2 {
+				// a Qi->Quai conversion with the minimum slip and an (almost) gas-less ETX next to a volume
+				// beyond ten times the flow average: the protocol refuses it
+				g.runBatch([]Item{{Dir: "i2q", Via: "qitx", Amt: "typical", Slip: 30, Gas: "tight"}, {Dir: "q2i", Via: "transfer", Amt: "huge", Slip: -1, Gas: "ample"},
+					{Dir: "i2q", Via: "qitx", Amt: "dust", Slip: 30, Gas: "ample"}})
+				continue
+			}
 			g.runBatch(g.randomBatch(r))
 		}
 	} else {
@@ -459,7 +522,7 @@ func runScenario(seed int64, prefork bool, rounds int, batches [][]Item, verbose
 	}
 	for _, c := range g.Convs {
 		switch c.State {
-		case "done", "refused":
+		case "done", "refused", "submitted":
 		default:
 			g.problem("conversion-without-outcome", "conv", c.ID, "state", c.State, "dir", c.Dir, "via", c.Via)
 		}
